@@ -74,6 +74,8 @@ def sumdb_model(m):
 
 
 CONCRETISERS = {
+    "witness.Proof).Unmarshal": ("internal/witness", "zz_verif_replay_test.go", "replay/proof_replay_test.go", "TestVerifReplayProof", lambda m: {"K": int(m.get("gk", 0))}),
+    "bastion.parseBody": ("internal/feeder/bastion", "zz_verif_replay_test.go", "replay/parsebody_replay_test.go", "TestVerifReplayParseBody", lambda m: {"any": True}),
     "sumdb.FeedLog$1": ("internal/feeder/sumdb", "zz_verif_replay_test.go", "replay/sumdb_replay_test.go", "TestVerifReplaySumDB", sumdb_model),
     "bastion.addHandler).handleUpdate": ("internal/feeder/bastion", "zz_verif_replay_test.go", "replay/bastion_replay_test.go", "TestVerifReplayBastion", bastion_model),
     "bastion.addHandler).ServeHTTP": ("internal/feeder/bastion", "zz_verif_replay_test.go", "replay/bastion_replay_test.go", "TestVerifReplayBastion", bastion_model),
@@ -110,7 +112,7 @@ def try_replay(pid, fn, tag, failed_obligations, repo, verif):
         return {"confirmed": False, "why": "no concretiser for " + fn}
     tags = set(tag.split(","))
     attempts = []
-    for o in failed_obligations[:4]:
+    for o in (failed_obligations[:4] or [{"path": 0, "model": ""}]):
         model = parse_model(o.get("model", ""))
         r = run_one(fn, model, repo, verif)
         attempts.append({"path": o["path"], "model": model, "run": r})
